@@ -135,3 +135,59 @@ func Verif_C03_SecondSaveCapturesEveryKindOfChange() {
 	vr.Assert(c07View(s2, dbs, "k1", "k2", "k3", "k9", "st") == want, "C03.second_save.restart_serves_the_dataset_of_the_last_save")
 	vr.Reach("end")
 }
+
+// Verif_C03_AutomaticSnapshotAcrossPhases: four rounds of writes, each followed by an interval tick.
+// A round writes three new keys, re-writes three existing keys with the values they already have (the
+// dataset does not change, the write count does), or writes one key. Whenever the writes since the
+// last snapshot have reached the threshold (3) by the time of a tick, what is on disk after that tick
+// must be the current dataset - also right after an attempt that found nothing new, and whatever the
+// counts of the earlier rounds were.
+func Verif_C03_AutomaticSnapshotAcrossPhases() {
+	dir := vr.FSReset()
+	threshold := 3
+	interval := 60 * time.Millisecond
+	s := c03Server(dir, false, uint64(threshold), interval)
+	next := 0
+	since := 0 // writes since the last snapshot that had to be taken
+	var all []string
+	for phase := 0; phase < 4; phase++ {
+		switch vr.Choose("phase"+itoa(phase), 3) {
+		case 0: // three new keys
+			for i := 0; i < 3; i++ {
+				k := "k" + itoa(next)
+				next++
+				all = append(all, k)
+				c05Run(s, "SET", k, "v")
+				since++
+			}
+		case 1: // the same values again (needs three keys to exist)
+			if len(all) < 3 {
+				vr.Assume(false)
+			}
+			for i := 0; i < 3; i++ {
+				c05Run(s, "SET", all[i], "v")
+				since++
+			}
+		case 2: // a single new key
+			k := "k" + itoa(next)
+			next++
+			all = append(all, k)
+			c05Run(s, "SET", k, "v")
+			since++
+		}
+		vr.FireTickers(4 * interval)
+		c03Settle(s)
+		if since >= threshold {
+			s2 := c03Server(dir, true, 1000, 0)
+			have := 0
+			for _, k := range all {
+				if c09Digest(s2, 0, k) == "s:v" {
+					have++
+				}
+			}
+			vr.Assert(have == len(all), "C03.auto_phases.snapshot_taken_within_one_interval_after_the_threshold")
+			since = 0
+		}
+	}
+	vr.Reach("end")
+}
